@@ -273,6 +273,20 @@ pub fn make_context(cfg: &Cfg) -> Context {
     boa_gc::verif::set_schedule(boa_gc::verif::Schedule::Off);
     let mut ctx = Context::default();
     apply_limits(&mut ctx, cfg);
+    FUEL.with(|f| f.set(cfg.fuel));
+    install_host(&mut ctx, cfg.prelude, true);
+    take_lines();
+    if let Some(bits) = cfg.opt {
+        ctx.set_optimizer_options(opt_from_bits(bits));
+    }
+    if cfg.strict {
+        ctx.strict(true);
+    }
+    ctx
+}
+
+/// Register the host functions (and evaluate the prelude) in the CURRENT realm of `ctx`.
+pub fn install_host(ctx: &mut Context, prelude: bool, capture_show: bool) {
     ctx.register_global_builtin_callable(js_string!("__emit"), 1, NativeFunction::from_fn_ptr(emit))
         .expect("register __emit");
     ctx.register_global_builtin_callable(js_string!("__tick"), 0, NativeFunction::from_fn_ptr(tick))
@@ -283,25 +297,20 @@ pub fn make_context(cfg: &Cfg) -> Context {
         .expect("register __storage");
     ctx.register_global_builtin_callable(js_string!("__gc"), 0, NativeFunction::from_fn_ptr(gc_now))
         .expect("register __gc");
-    FUEL.with(|f| f.set(cfg.fuel));
-    if cfg.prelude {
-        ctx.eval(Source::from_bytes(PRELUDE.as_bytes())).expect("prelude");
-        let f = ctx
-            .global_object()
-            .get(js_string!("__show"), &mut ctx)
-            .expect("__show");
-        SHOW.with(|s| *s.borrow_mut() = Some(f));
-    } else {
+    if prelude {
+        let realm = ctx.realm().clone();
+        let script = Script::parse(Source::from_bytes(PRELUDE.as_bytes()), Some(realm), ctx).expect("prelude parse");
+        script.evaluate(ctx).expect("prelude");
+        if capture_show {
+            let f = ctx
+                .global_object()
+                .get(js_string!("__show"), ctx)
+                .expect("__show");
+            SHOW.with(|s| *s.borrow_mut() = Some(f));
+        }
+    } else if capture_show {
         SHOW.with(|s| *s.borrow_mut() = None);
     }
-    take_lines();
-    if let Some(bits) = cfg.opt {
-        ctx.set_optimizer_options(opt_from_bits(bits));
-    }
-    if cfg.strict {
-        ctx.strict(true);
-    }
-    ctx
 }
 pub fn apply_limits(ctx: &mut Context, cfg: &Cfg) {
     let l = ctx.runtime_limits_mut();
